@@ -114,6 +114,9 @@ func newModel(thorough bool) *chainprop.Model {
 	m.Acts = append(m.Acts, m.Drive("invite V1->NEW"), m.Drive("killInvitee G->NEW"))
 	m.Singles(false)
 	m.TipsSingles() // every template once more with tips (tips are paid on top of amount and fee)
+	// (appended last so that the indices of the earlier actions stay what saved replays recorded)
+	// a candidate of the genesis (no inviter link) that holds stake: something a stranger could destroy
+	m.Acts = append(m.Acts, m.Drive("replenish X1->C1 10"))
 	m.H.Inserted = func(t *chainprop.Trans) bool {
 		c := t.C
 		if len(t.Block.Body.Transactions) != 1 {
